@@ -294,6 +294,7 @@ def run_harnesses(modname, tier, hs, deadline_s, seed, slice_s=6.0, slice_paths=
     ctx = mp.get_context('fork')
     pool = ctx.Pool(NCPU, maxtasksperchild=200)
     pending = []
+    started = {}
     hmap = {h.name: h for h in hs}
     try:
         while queue or pending:
@@ -311,8 +312,23 @@ def run_harnesses(modname, tier, hs, deadline_s, seed, slice_s=6.0, slice_paths=
                 a = (modname, tier, hname, roots, min(slice_paths, budget[hname] - stats[hname]['paths']),
                      min(slice_s, max(1.0, deadline_s - (now - t0))), seed, ve)
                 pending.append(pool.apply_async(explore_job, (a,)))
+                started[id(pending[-1])] = (time.time(), hname, roots)
             still = []
             progressed = False
+            hung = [r for r in pending if not r.ready() and time.time() - started[id(r)][0] > max(90.0, 10 * slice_s)]
+            if hung:
+                # a worker stuck inside a solver call that ignores its timeout: give up on those prefixes (recorded), restart the pool
+                for r in hung:
+                    _, hname, roots = started[id(r)]
+                    stats[hname]['inconclusive'].append({'harness': hname, 'what': 'worker hung in a solver call; %d prefixes abandoned' % len(roots)})
+                    leftover[hname] += len(roots)
+                requeue = [started[id(r)] for r in pending if not r.ready() and r not in hung]
+                pool.terminate()
+                pool.join()
+                pool = ctx.Pool(NCPU, maxtasksperchild=200)
+                pending = [r for r in pending if r.ready()]
+                for _, hname, roots in requeue:
+                    queue.appendleft((hname, roots))
             for r in pending:
                 if r.ready():
                     progressed = True
